@@ -130,6 +130,34 @@ func mergeRules(c *Ctx, r4 string) {
 	// it compares the item fetched from the backend: GetCurrentItem precedes the cond
 	offs = g.MustPrecede(calls(kB3GetCurItem), func(n *GNode) bool { return n == conds[0] })
 	c.Offences(g, offs, r4, "refetchAndMerge: compared item is re-read from the backend", conds[0].Ast.Pos(), "GetCurrentItem precedes the comparison", "comparison without re-reading the current item")
+	// the replay re-positions on the SAME item (by the tracked item id), not merely on an item with an equal key:
+	// after another transaction removed and re-added the key, the new item has the same key and may have the
+	// same (initial) version, so identity is the only thing that tells them apart
+	{
+		offs := g.MustPrecede(calls(kB3FindWithID), calls(kB3GetCurItem, kB3RemoveCur, kB3UpdateCurWI))
+		c.Offences(g, offs, r4, "refetchAndMerge: non-add actions are re-positioned with FindWithID", f.Lit.Pos(), "FindWithID precedes GetCurrentItem / the replayed remove / update", "a tracked item can be re-positioned by key only: a different item with an equal key (removed and re-added by another committed transaction) is taken for the one that was read (lost update / torn read)")
+		okID := len(g.callNodes(kB3FindWithID)) >= 1
+		for _, nc := range g.callNodes(kB3FindWithID) {
+			h := enclosingRangeHead(g, nc.n)
+			if h == nil || len(nc.cs.Call.Args) != 3 {
+				okID = false
+				continue
+			}
+			kid, isID := h.RangeHead.Key.(*ast.Ident)
+			aid, isID2 := ast.Unparen(nc.cs.Call.Args[2]).(*ast.Ident)
+			if !isID || !isID2 || info.Defs[kid] != info.Uses[aid] {
+				okID = false
+			}
+		}
+		c.Check(okID, r4, "refetchAndMerge: FindWithID is given the tracked item's id", f.Lit.Pos(), "id argument is the key of the tracked-items map", "the identity lookup does not use the tracked item's id", nil)
+		var plain []string
+		for _, cs := range w.Sites(f) {
+			if cs.Key == "btree.Btree.Find" || cs.Key == "btree.Btree.FindInDescendingOrder" {
+				plain = append(plain, w.PosStr(cs.Call.Pos()))
+			}
+		}
+		c.Check(len(plain) == 0, r4, "refetchAndMerge: no key-only lookup in the replay", f.Lit.Pos(), "none", fmt.Sprintf("key-only Find at %v", plain), nil)
+	}
 	// every replayed call's failure fails the merge
 	for _, k := range []string{kB3AddItem, kB3FindWithID, kB3RemoveCur, kB3UpdateCurWI} {
 		ncs := g.callNodes(k)
